@@ -333,6 +333,8 @@ def rule_poison(ctx):
         ctx.holds("C12.POISON", f.short, f"{n} extreme but well-formed number texts: refused or stored renderable; a getProperties afterwards is answered in full with parsable numbers", fi=f)
 
 
+EXPLANATION = EXPLANATION + " C12.POISON: on a driver built by the real machinery a newNumberVector (built by the real message constructors) carrying a 400-digit integer, its negative, a 400-digit decimal or an ordinary number is handled by constant evaluation of the whole driver and message packages, then a whole-device getProperties: nothing may raise out of Driver.message_from_client, all five enabled properties are defined and the number announced is INDI number text (genuine defect D27 of the pinned tree, repaired by fix 210f6a8)."
+
 RULES = [
     ("C12.POISON", rule_poison, "a well-formed number beyond the renderable range does not poison its property for later messages"),
     ("C12.REGEX", rule_regex, "no regex applied to client-supplied values has an unbounded repeat with an ambiguous iteration"),
